@@ -36,7 +36,9 @@ type tNode struct {
 	mtime   time.Time
 }
 
-var nameAlphabet = []string{"a", "b", "file", "dir", "with space", ".hidden", "x.y", "a..b", "..c", "d..", "日本", "é", "q'uote", "do$llar", "semi;colon", "amp&", "(paren)", "star*", "long-name-0123456789", "UPPER", "tab\tname"}
+var nameAlphabet = []string{"a", "b", "file", "dir", "with space", ".hidden", "x.y", "a..b", "..c", "d..", "日本", "é", "q'uote", "do$llar", "semi;colon", "amp&", "(paren)", "star*", "long-name-0123456789", "UPPER", "tab\tname",
+	// names that look like archives (directories and plain files): under recursive limits they are candidates for nested extraction
+	"backup.zip", "logs.gz", "pack.7z", "v1.Z"}
 
 func genTree(rnd *hx.Rand, maxEntries, maxDepth int, bigFiles, allowDotDot bool) []tNode {
 	var nodes []tNode
@@ -290,8 +292,8 @@ func diffLists(a, b []string) string {
 
 func archiveMain(args []string) {
 	o := hx.ParseOpts(args)
-	rep := hx.NewReport("trees of 0..25 entries (thorough ..200), depth 0..4 (..6), names over letters, digits, spaces, dots (leading, doubled), unicode and shell metacharacters, empty directories, empty / small / multi-megabyte (thorough) files, " +
-		"compressible or random, on MemMapFs and OsFs; each tree: zip→unzip round trip (with and without limits), zip and tar read-only views, refusal of mutating calls, behaviour after Close. " +
+	rep := hx.NewReport("trees of 0..25 entries (thorough ..200), depth 0..4 (..6), names over letters, digits, spaces, dots (leading, doubled), unicode, shell metacharacters and archive-like extensions (on directories and on plain files), empty directories, empty / small / multi-megabyte (thorough) files, " +
+		"compressible or random, on MemMapFs and OsFs; each tree: zip→unzip round trip (without limits, with non-recursive and with recursive limits), zip and tar read-only views, refusal of mutating calls, behaviour after Close. " +
 		"non-trivial = tree with at least 3 entries and one nested directory; distinct = tree listing.")
 	rnd := hx.NewRand(o.Seed)
 	n := 60
@@ -350,10 +352,17 @@ func archiveMain(args []string) {
 			}
 			var list []string
 			var uerr error
-			if i%2 == 0 {
+			switch i % 3 {
+			case 0:
 				list, uerr = fs.Unzip(zipf, dst)
-			} else {
+				rep.Hist("unzip:no-limits")
+			case 1:
 				list, uerr = fs.UnzipWithContextAndLimits(ctx, zipf, dst, filesystem.DefaultNonRecursiveZipLimits())
+				rep.Hist("unzip:non-recursive-limits")
+			default:
+				// recursive limits: entries that merely LOOK like archives (none of the generated ones is a zip) stay what they are
+				list, uerr = fs.UnzipWithContextAndLimits(ctx, zipf, dst, filesystem.DefaultZipLimits())
+				rep.Hist("unzip:recursive-limits")
 			}
 			if uerr != nil {
 				key := "unzip-failed:" + errKind(uerr)
